@@ -1,3 +1,4 @@
 //! Generated corpus of decorated functions (see /verif/tools/gen_corpus.py).
 pub mod gen;
 pub use gen::FUNCS;
+pub use gen::{ExtraDesc, EXTRAS};
